@@ -135,10 +135,10 @@ var frameRe = regexp.MustCompile(`(?m)^([ \t]*(?:at|from):[ \t]+\S.*?)[ \t]+\d+(
 // frameNameRe matches the name ego gives a call frame, "<function>:<line>"
 // (bytecode callframe.go: fmt.Sprintf("%s:%d", name, f.Line)), where it shows in a
 // message: directly in front of "(line N)" or after "defer " (the name of a deferred
-// function literal is "defer main:181").
+// function literal is "defer main:181"; inside a function literal it is "defer <anon>:183").
 var (
-	frameNameRe = regexp.MustCompile(`\b([A-Za-z_][\w.$]*):\d+(\(line N)`)
-	deferNameRe = regexp.MustCompile(`\b(defer [A-Za-z_][\w.$]*):\d+\b`)
+	frameNameRe = regexp.MustCompile(`(<\w+>|\b[A-Za-z_][\w.$]*):\d+(\(line N)`)
+	deferNameRe = regexp.MustCompile(`\b(defer (?:<\w+>|[A-Za-z_][\w.$]*)):\d+\b`)
 )
 
 // maskPos removes source positions from messages: "line 12", "line 12:7", the bare
